@@ -1,5 +1,5 @@
 SPECIFICATION Spec
 CONSTANTS W = 2
-          N = 64
+          N = 40
 INVARIANTS DivSem BitView Logic Shift Counts Single Fields Lists
 CHECK_DEADLOCK FALSE
